@@ -806,7 +806,9 @@ class CiderNumIntMixin:
         if isinstance(self.mlxc, MappedXC):
             exc_ml, dexcdX0TN_ml = self.mlxc(X0TN, rhocut=self.rhocut)
         elif isinstance(self.mlxc, MappedXC2):
-            rho_tuple = get_rho_tuple_with_grad_cross(rho, is_mgga=True)
+            rho_tuple = get_rho_tuple_with_grad_cross(
+                rho, is_mgga=self.settings.sl_settings.level == "MGGA"
+            )
             exc_ml, dexcdX0TN_ml, vrho_tuple = self.mlxc(
                 X0TN, rho_tuple, rhocut=self.rhocut
             )
